@@ -47,6 +47,8 @@ func runC11(c *Ctx) {
 	c11NumberArms(c)
 	c11SourceReturn(c, bridge)
 	c11StringByFormatting(c, bridge)
+	// only null becomes nil for an interface parameter: a nil slice or map is an (empty) array / object, not null
+	nullDefinition(c, "C11.null-definition")
 }
 
 // c11ConverterShape: a nil conversion result means "null for this parameter" to the call bridge (it
@@ -113,20 +115,6 @@ func c11Bridge(c *Ctx, h *ssa.Function, d *Dispatcher) *callBridge {
 			br.FunType = call
 		}
 	})
-	if len(calls) != 1 {
-		c.R.Add("C11.single-call", "reflective call", c.P.Pos(h.Pos()), Violation, fmt.Sprintf("the call handler must contain exactly one reflect.Value.Call; found %d: a host function could be invoked twice, or never", len(calls)))
-		return nil
-	}
-	br.Call = calls[0]
-	for _, v := range c.visitsOf(h, d.Fn, br.Node) {
-		if v.Field == "Expression" && !v.ViaAt {
-			br.FunEval = v.Call
-		}
-	}
-	if br.FunEval == nil || br.FunType == nil {
-		c.R.Undecided(rule, "callee evaluation", c.P.Pos(h.Pos()), "evaluation of the callee expression / its reflect type not found")
-		return nil
-	}
 	// module helpers taking the function type and returning bool
 	instrs(h, func(b *ssa.BasicBlock, i int, in ssa.Instruction) {
 		call, ok := in.(*ssa.Call)
@@ -158,6 +146,25 @@ func c11Bridge(c *Ctx, h *ssa.Function, d *Dispatcher) *callBridge {
 			br.Expand = call
 		}
 	})
+	for _, part := range []ssa.Value{br.VarFlag, br.CtxFlag, br.Conv, br.Expand} {
+		if call, ok := part.(*ssa.Call); ok && call != nil {
+			c.P.touch(calleeOf(call))
+		}
+	}
+	if len(calls) != 1 {
+		c.R.Add("C11.single-call", "reflective call", c.P.Pos(h.Pos()), Violation, fmt.Sprintf("the call handler must contain exactly one reflect.Value.Call; found %d: a host function could be invoked twice, or never", len(calls)))
+		return nil
+	}
+	br.Call = calls[0]
+	for _, v := range c.visitsOf(h, d.Fn, br.Node) {
+		if v.Field == "Expression" && !v.ViaAt {
+			br.FunEval = v.Call
+		}
+	}
+	if br.FunEval == nil || br.FunType == nil {
+		c.R.Undecided(rule, "callee evaluation", c.P.Pos(h.Pos()), "evaluation of the callee expression / its reflect type not found")
+		return nil
+	}
 	if br.VarFlag == nil || br.CtxFlag == nil || br.Conv == nil || br.Expand == nil {
 		c.R.Undecided(rule, "call bridge parts", c.P.Pos(h.Pos()), fmt.Sprintf("variadic flag=%v context flag=%v conversion=%v spread expansion=%v", br.VarFlag != nil, br.CtxFlag != nil, br.Conv != nil, br.Expand != nil))
 		return nil
@@ -336,7 +343,7 @@ func c11Arity(c *Ctx, br *callBridge, rule string) {
 			if _, isConst := bo.Y.(*ssa.Const); isConst {
 				continue
 			}
-			if !c.blockReturnsError(b.Succs[0]) {
+			if !c.blockReturnsError(b.Succs[0]) && !c.rejects(b, 0, r, br.Call) {
 				continue
 			}
 			switch bo.Op {
@@ -1210,4 +1217,143 @@ func c11StringByFormatting(c *Ctx, br *callBridge) {
 		c.R.Check(rule, "source-kind:"+kn.name, c.P.Pos(top.Pos()), bad == "", "a "+strings.ToLower(kn.name)+" argument for a string parameter is converted with reflect.Value.Convert ("+bad+"), which yields the one-character string with that code point (uint8(7) becomes \"\\a\", not \"7\"); a string parameter must be filled by formatting")
 	}
 	c.R.Floor(rule, 8)
+}
+
+// rejects: every path that starts with the edge b -> b.Succs[k] ends in a return whose error result is not nil (or
+// in a panic) without passing `avoid`. Path-sensitive on nil-ness only: a phi takes the value of the edge the walk came
+// in on, and a test `x == nil` / `x != nil` on a value whose nil-ness is known that way is followed on one side. This
+// sees through an error that travels in a temporary (`tmp = fmt.Errorf(..); ...; if err := tmp; err != nil { return
+// nil, err }`) exactly as through a direct `return nil, fmt.Errorf(..)`.
+func (c *Ctx) rejects(b *ssa.BasicBlock, k int, r *FoldResult, avoid ssa.Instruction) bool {
+	return c.walkEdge(b, k, r, avoid, nil, func(ret *ssa.Return, nilness func(ssa.Value) int, st int) bool {
+		if len(ret.Results) == 0 {
+			return false
+		}
+		return nilness(ret.Results[len(ret.Results)-1]) == nnNonNil
+	})
+}
+
+const (
+	nnUnknown = iota
+	nnNil
+	nnNonNil
+)
+
+// walkEdge follows every path that starts with the edge b -> b.Succs[k]. step (optional) threads a small state through
+// the instructions of a path; final judges a path at its return. A path that reaches `avoid`, loops, or runs too deep
+// fails; a panic ends a path successfully. The result is the conjunction over all paths.
+func (c *Ctx) walkEdge(b *ssa.BasicBlock, k int, r *FoldResult, avoid ssa.Instruction, step func(in ssa.Instruction, nilness func(ssa.Value) int, st int) int, final func(ret *ssa.Return, nilness func(ssa.Value) int, st int) bool) bool {
+	type env map[ssa.Value]int
+	var nilness func(v ssa.Value, e env, depth int) int
+	nilness = func(v ssa.Value, e env, depth int) int {
+		if depth > 8 {
+			return nnUnknown
+		}
+		if n, ok := e[v]; ok {
+			return n
+		}
+		switch x := v.(type) {
+		case *ssa.Const:
+			if x.Value == nil {
+				return nnNil
+			}
+			return nnNonNil
+		case *ssa.MakeInterface:
+			if _, isPtr := x.X.Type().Underlying().(*types.Pointer); isPtr {
+				return nilness(x.X, e, depth+1)
+			}
+			return nnNonNil
+		case *ssa.Alloc, *ssa.MakeClosure, *ssa.MakeMap, *ssa.MakeSlice:
+			return nnNonNil
+		case *ssa.ChangeInterface:
+			return nilness(x.X, e, depth+1)
+		case *ssa.Call:
+			if cal := calleeOf(x); cal != nil {
+				switch cal.String() {
+				case "fmt.Errorf", "errors.New":
+					return nnNonNil
+				}
+			}
+		}
+		return nnUnknown
+	}
+	seen := map[[2]*ssa.BasicBlock]bool{}
+	var walk func(prev, cur *ssa.BasicBlock, e env, st int, depth int) bool
+	walk = func(prev, cur *ssa.BasicBlock, e env, st int, depth int) bool {
+		if depth > 64 || seen[[2]*ssa.BasicBlock{prev, cur}] {
+			return false
+		}
+		seen[[2]*ssa.BasicBlock{prev, cur}] = true
+		defer delete(seen, [2]*ssa.BasicBlock{prev, cur})
+		ne := env{}
+		for k2, v := range e {
+			ne[k2] = v
+		}
+		pi := -1
+		for i, p := range cur.Preds {
+			if p == prev {
+				pi = i
+			}
+		}
+		for _, in := range cur.Instrs {
+			phi, ok := in.(*ssa.Phi)
+			if !ok {
+				break
+			}
+			if pi >= 0 && pi < len(phi.Edges) {
+				ne[phi] = nilness(phi.Edges[pi], e, 0)
+			}
+		}
+		nn := func(v ssa.Value) int { return nilness(v, ne, 0) }
+		for _, in := range cur.Instrs {
+			if avoid != nil && in == avoid {
+				return false
+			}
+			if step != nil {
+				st = step(in, nn, st)
+			}
+			switch x := in.(type) {
+			case *ssa.Return:
+				return final(x, nn, st)
+			case *ssa.Panic:
+				return true
+			case *ssa.Jump:
+				return walk(cur, cur.Succs[0], ne, st, depth+1)
+			case *ssa.If:
+				take := -1
+				if r != nil {
+					if lv := r.Val(x.Cond); lv.K == lConst && lv.C.Kind() == constant.Bool {
+						if constant.BoolVal(lv.C) {
+							take = 0
+						} else {
+							take = 1
+						}
+					}
+				}
+				if bo, ok := x.Cond.(*ssa.BinOp); take < 0 && ok && (bo.Op == token.EQL || bo.Op == token.NEQ) {
+					var other ssa.Value
+					if isNilConst(bo.Y) {
+						other = bo.X
+					} else if isNilConst(bo.X) {
+						other = bo.Y
+					}
+					if other != nil {
+						if n := nn(other); n != nnUnknown {
+							if (n == nnNil) == (bo.Op == token.EQL) {
+								take = 0
+							} else {
+								take = 1
+							}
+						}
+					}
+				}
+				if take >= 0 {
+					return walk(cur, cur.Succs[take], ne, st, depth+1)
+				}
+				return walk(cur, cur.Succs[0], ne, st, depth+1) && walk(cur, cur.Succs[1], ne, st, depth+1)
+			}
+		}
+		return false
+	}
+	return walk(b, b.Succs[k], env{}, 0, 0)
 }
